@@ -87,7 +87,9 @@ func checkC09(r *core.Run) {
 	r.Count("bounds_functions", len(ba.FuncsAnalysed))
 	c09Scope(r, p)
 	c09Canon(r, p, ba)
-	c09Workers(r, p)
+	c09Workers(r, p, "R-C09-bounds")
+	// the block weight accumulated while decoding (shared with C05)
+	c05Weight(r, p, "R-C09-bounds")
 	c09Witness(r, p)
 	c09Sizes(r, p, ba)
 }
@@ -374,8 +376,7 @@ var _ = ssa.BuilderMode(0)
 // an explicit upper bound (the number parsed so far), or an open-ended slice of the block's own list read
 // at that moment (which the failure branch trims to the parsed prefix) - not of a copy of the slice header
 // taken before parsing.
-func c09Workers(r *core.Run, p *core.Program) {
-	const rule = "R-C09-bounds"
+func c09Workers(r *core.Run, p *core.Program, rule string) {
 	fn := p.Func("lib/btc.(*Block).BuildTxListExt")
 	if fn == nil {
 		return
